@@ -88,6 +88,8 @@ class Materializer:
 
     def mat(self, v):
         v = simplify_native(v)
+        if isinstance(v, E.BoundMeth) and not isinstance(v.func, tuple):
+            return types.MethodType(v.func, self.mat(v.self_val))
         if type(v).__name__ == "WeakRef":
             import weakref
             return weakref.ref(self.mat(v.target))
